@@ -390,6 +390,7 @@ def compare(w: World, t, q, fails: list) -> None:
             ems[emid] = w.tcs[c].emulsions[i]
     for emid, em in ems.items():
         mem = t["ems"][emid - 1]["mem"]
+        _definitions(em, fails)
         if any(t["drops"][d - 1]["k"] == "S2" for d in mem):
             continue
         _queries(em, q["em"][emid - 1], fails)
@@ -416,6 +417,22 @@ def compare(w: World, t, q, fails: list) -> None:
             pairs = list(r.items())
             if [p[0] for p in pairs] != list(tc["times"]) or any(p[1] is not r.emulsions[i] for i, p in enumerate(pairs)):
                 fails.append("timecourse-items")
+
+
+def _definitions(em, fails):
+    """count, mean/spread of radii and volumes, total volume = their definitions over the members (any classes, dimensions)"""
+    members = list(list.__iter__(em))
+    if not members:
+        return
+    radii = np.array([d.radius for d in members])
+    vols = np.array([d.volume for d in members])
+    st = em.get_size_statistics()
+    ref = {"count": len(members), "radius_mean": radii.mean(), "radius_std": radii.std(), "volume_mean": vols.mean(), "volume_std": vols.std()}
+    for k, v in ref.items():
+        if not _close(float(st[k]), float(v), 1e-12):
+            fails.append(f"definition-{k}")
+    if not _close(float(em.total_droplet_volume), float(vols.sum())):
+        fails.append("definition-total-volume")
 
 
 def _queries(em, q, fails, permuted=True):
